@@ -84,20 +84,23 @@ theorem applyOps_ok (n : Nat) : ∀ (ops : List RegOp) (s : RHeap × Registries)
     obtain ⟨c, d⟩ := ih (applyOp s op) (Nat.le_trans hn a.1) b
     exact ⟨a.trans c, d⟩
 
-theorem mergeDict_ok (n : Nat) (t : String) : ∀ (d : RDict) (h : RHeap) (outer : List (String × Addr)), n ≤ h.size → RFresh n outer →
-    RFrame n h (mergeDict t d h outer).1 ∧ RFresh n (mergeDict t d h outer).2 := by
+theorem mergeDict_ok (n : Nat) (keep : String → String → Bool) (t : String) : ∀ (d : RDict) (h : RHeap) (outer : List (String × Addr)),
+    n ≤ h.size → RFresh n outer → RFrame n h (mergeDict keep t d h outer).1 ∧ RFresh n (mergeDict keep t d h outer).2 := by
   intro d
   induction d with
   | nil => intro h outer _ hf; exact ⟨RFrame.refl n h, hf⟩
   | cons e rest ih =>
     intro h outer hn hf
     obtain ⟨f, fn⟩ := e
-    obtain ⟨a, b⟩ := registerIn_ok n h outer t f fn hn hf
-    obtain ⟨c, d⟩ := ih _ _ (Nat.le_trans hn a.1) b
-    exact ⟨a.trans c, d⟩
+    simp only [mergeDict]
+    split
+    · obtain ⟨a, b⟩ := registerIn_ok n h outer t f fn hn hf
+      obtain ⟨c, d⟩ := ih _ _ (Nat.le_trans hn a.1) b
+      exact ⟨a.trans c, d⟩
+    · exact ih h outer hn hf
 
-theorem mergeOuter_ok (n : Nat) : ∀ (other : List (String × Addr)) (h : RHeap) (outer : List (String × Addr)), n ≤ h.size → RFresh n outer →
-    RFrame n h (mergeOuter other h outer).1 ∧ RFresh n (mergeOuter other h outer).2 := by
+theorem mergeOuter_ok (n : Nat) (keep : String → String → Bool) : ∀ (other : List (String × Addr)) (h : RHeap) (outer : List (String × Addr)),
+    n ≤ h.size → RFresh n outer → RFrame n h (mergeOuter keep other h outer).1 ∧ RFresh n (mergeOuter keep other h outer).2 := by
   intro other
   induction other with
   | nil => intro h outer _ hf; exact ⟨RFrame.refl n h, hf⟩
@@ -107,17 +110,174 @@ theorem mergeOuter_ok (n : Nat) : ∀ (other : List (String × Addr)) (h : RHeap
     simp only [mergeOuter]
     split
     · rename_i d _
-      obtain ⟨p, q⟩ := mergeDict_ok n t d h outer hn hf
+      obtain ⟨p, q⟩ := mergeDict_ok n keep t d h outer hn hf
       obtain ⟨c, d'⟩ := ih _ _ (Nat.le_trans hn p.1) q
       exact ⟨p.trans c, d'⟩
     · exact ih h outer hn hf
 
-/-- `Schema.clone` with `merge_resolvers`: no inner dict of the heap is written; the clone owns all its inner dicts -/
-theorem cloneRegs_deep_ok (h : RHeap) (src : Registries) :
-    RFrame h.size h (cloneRegs true h src).1 ∧ RegsFresh h.size (cloneRegs true h src).2 := by
-  simp only [cloneRegs, if_true]
-  obtain ⟨a, b⟩ := mergeOuter_ok h.size src.resolvers h [] (Nat.le_refl _) (by intro e he; simp at he)
-  obtain ⟨c, d⟩ := mergeOuter_ok h.size src.subscriptions _ [] a.1 (by intro e he; simp at he)
-  exact ⟨a.trans c, b, d⟩
+/-- `Schema.clone` with `merge_resolvers` (filtered or not): no inner dict of the heap is written; the clone owns all its inner dicts -/
+theorem cloneRegs_deep_ok (filtered : Bool) (exists_ : String → String → Bool) (h : RHeap) (src : Registries) (r : RHeap × Registries)
+    (e : cloneRegs true filtered exists_ h src = some r) : RFrame h.size h r.1 ∧ RegsFresh h.size r.2 := by
+  simp only [cloneRegs, if_true] at e
+  split at e
+  · cases e
+  · simp only [Option.some.injEq] at e
+    subst e
+    obtain ⟨a, b⟩ := mergeOuter_ok h.size (if filtered then exists_ else fun _ _ => true) src.resolvers h [] (Nat.le_refl _) (by intro e he; simp at he)
+    obtain ⟨c, d⟩ := mergeOuter_ok h.size (if filtered then exists_ else fun _ _ => true) src.subscriptions _ [] a.1 (by intro e he; simp at he)
+    exact ⟨a.trans c, b, d⟩
+
+/-! ### the clone's registry ⊆ the source's registry restricted to the fields that exist -/
+
+/-- `(t, f ↦ fn)` is an entry of the registry -/
+def Entry (h : RHeap) (outer : List (String × Addr)) (t f : String) (fn : Nat) : Prop :=
+  ∃ a d, (t, a) ∈ outer ∧ h.read a = some d ∧ (f, fn) ∈ d
+
+/-- the map under construction: valid, address determines name, every entry satisfies `P` -/
+def Built (P : String → String → Nat → Prop) (h : RHeap) (outer : List (String × Addr)) : Prop :=
+  (∀ e, e ∈ outer → e.2 < h.size) ∧ (∀ e1 e2, e1 ∈ outer → e2 ∈ outer → e1.2 = e2.2 → e1.1 = e2.1) ∧
+  ∀ t f fn, Entry h outer t f fn → P t f fn
+
+theorem read_alloc_new (h : RHeap) (d : RDict) : (h.alloc d).1.read h.size = some d := by
+  simp [RHeap.alloc, RHeap.read, RHeap.size]
+
+theorem read_write_same (h : RHeap) (a : Addr) (d : RDict) (ha : a < h.size) : (h.write a d).read a = some d := by
+  simp only [RHeap.write, RHeap.read, RHeap.size] at *
+  simp [List.getElem?_set, ha]
+
+theorem mem_dictSet {d : RDict} {f : String} {fn : Nat} {x : String × Nat} (hx : x ∈ dictSet d f fn) : x = (f, fn) ∨ x ∈ d := by
+  simp only [dictSet] at hx
+  split at hx
+  · simp only [List.mem_map] at hx
+    obtain ⟨e, he, rfl⟩ := hx
+    split
+    · exact Or.inl rfl
+    · exact Or.inr he
+  · simp only [List.mem_append, List.mem_singleton] at hx
+    rcases hx with hx | hx
+    · exact Or.inr hx
+    · exact Or.inl hx
+
+theorem lookup_mem_name {outer : List (String × Addr)} {t : String} {a : Addr} (hl : lookup outer t = some a) : (t, a) ∈ outer := by
+  simp only [lookup, Option.map_eq_some_iff] at hl
+  obtain ⟨e, he, rfl⟩ := hl
+  have hm := List.mem_of_find?_eq_some he
+  have hp := List.find?_some he
+  simp only [beq_iff_eq] at hp
+  subst hp
+  exact hm
+
+theorem lookup_none_name {outer : List (String × Addr)} {t : String} (hl : lookup outer t = none) : ∀ e, e ∈ outer → e.1 ≠ t := by
+  intro e he heq
+  simp only [lookup, Option.map_eq_none_iff, List.find?_eq_none] at hl
+  have := hl e he
+  simp [heq] at this
+
+theorem registerIn_built (P : String → String → Nat → Prop) (h : RHeap) (outer : List (String × Addr)) (t f : String) (fn : Nat)
+    (hb : Built P h outer) (hp : P t f fn) : Built P (registerIn h outer t f fn).1 (registerIn h outer t f fn).2 := by
+  obtain ⟨hv, hinj, hent⟩ := hb
+  simp only [registerIn, getOrCreate]
+  cases hl : lookup outer t with
+  | some a =>
+    have hm := lookup_mem_name hl
+    have ha := hv _ hm
+    simp only
+    cases hd : h.read a with
+    | none => simp only [hd]; exact ⟨hv, hinj, hent⟩
+    | some d =>
+      simp only [hd]
+      refine ⟨fun e he => by rw [size_write]; exact hv e he, hinj, ?_⟩
+      rintro t' f' fn' ⟨a', d', hm', hr', hx'⟩
+      by_cases haa : a = a'
+      · subst haa
+        rw [read_write_same h a _ ha] at hr'
+        simp only [Option.some.injEq] at hr'
+        subst hr'
+        have ht' : t' = t := hinj _ _ hm' hm rfl
+        subst ht'
+        rcases mem_dictSet hx' with hx' | hx'
+        · cases hx'; exact hp
+        · exact hent t' f' fn' ⟨a, d, hm, hd, hx'⟩
+      · rw [read_write_other h a a' _ haa] at hr'
+        exact hent t' f' fn' ⟨a', d', hm', hr', hx'⟩
+  | none =>
+    have hne := lookup_none_name hl
+    simp only
+    have hrn : (h.alloc []).1.read (h.alloc []).2 = some [] := read_alloc_new h []
+    simp only [hrn]
+    have hsz : (h.alloc []).2 = h.size := rfl
+    refine ⟨?_, ?_, ?_⟩
+    · intro e he
+      simp only [List.mem_append, List.mem_singleton] at he
+      rw [size_write, size_alloc]
+      rcases he with he | rfl
+      · exact Nat.lt_succ_of_lt (hv e he)
+      · exact Nat.lt_succ_self _
+    · intro e1 e2 h1 h2 heq
+      simp only [List.mem_append, List.mem_singleton] at h1 h2
+      rcases h1 with h1 | rfl <;> rcases h2 with h2 | rfl
+      · exact hinj e1 e2 h1 h2 heq
+      · have := hv e1 h1; rw [heq] at this; exact absurd this (Nat.lt_irrefl _)
+      · have := hv e2 h2; rw [← heq] at this; exact absurd this (Nat.lt_irrefl _)
+      · rfl
+    · rintro t' f' fn' ⟨a', d', hm', hr', hx'⟩
+      simp only [List.mem_append, List.mem_singleton] at hm'
+      by_cases haa : h.size = a'
+      · subst haa
+        rw [hsz, read_write_same _ _ _ (by rw [size_alloc]; exact Nat.lt_succ_self _)] at hr'
+        simp only [Option.some.injEq] at hr'
+        subst hr'
+        rcases hm' with hm' | hm'
+        · exact absurd (hv _ hm') (Nat.lt_irrefl _)
+        · simp only [Prod.mk.injEq] at hm'
+          obtain ⟨rfl, _⟩ := hm'
+          rcases mem_dictSet hx' with hx' | hx'
+          · cases hx'; exact hp
+          · simp at hx'
+      · rw [hsz, read_write_other _ _ a' _ haa] at hr'
+        rcases hm' with hm' | hm'
+        · rw [read_alloc_old h [] a' (hv _ hm')] at hr'
+          exact hent t' f' fn' ⟨a', d', hm', hr', hx'⟩
+        · simp only [Prod.mk.injEq] at hm'
+          exact absurd hm'.2.symm haa
+
+theorem mergeDict_built (P : String → String → Nat → Prop) (keep : String → String → Bool) (t : String) : ∀ (d : RDict) (h : RHeap)
+    (outer : List (String × Addr)), Built P h outer → (∀ x, x ∈ d → keep t x.1 = true → P t x.1 x.2) →
+      Built P (mergeDict keep t d h outer).1 (mergeDict keep t d h outer).2 := by
+  intro d
+  induction d with
+  | nil => intro h outer hb _; exact hb
+  | cons e rest ih =>
+    intro h outer hb hp
+    obtain ⟨f, fn⟩ := e
+    simp only [mergeDict]
+    split
+    · rename_i hk
+      exact ih _ _ (registerIn_built P h outer t f fn hb (hp (f, fn) (by simp) hk)) (fun x hx => hp x (by simp [hx]))
+    · exact ih h outer hb (fun x hx => hp x (by simp [hx]))
+
+theorem Built.empty (P : String → String → Nat → Prop) (h : RHeap) : Built P h [] :=
+  ⟨fun e he => by simp at he, fun e1 _ he => by simp at he, fun t f fn ⟨a, d, hm, _⟩ => by simp at hm⟩
+
+theorem mergeOuter_built (P : String → String → Nat → Prop) (keep : String → String → Bool) (n : Nat) : ∀ (other : List (String × Addr)) (h : RHeap)
+    (outer : List (String × Addr)), n ≤ h.size → RFresh n outer → Built P h outer → (∀ e, e ∈ other → e.2 < n) →
+      (∀ e d x, e ∈ other → h.read e.2 = some d → x ∈ d → keep e.1 x.1 = true → P e.1 x.1 x.2) →
+      Built P (mergeOuter keep other h outer).1 (mergeOuter keep other h outer).2 := by
+  intro other
+  induction other with
+  | nil => intro h outer _ _ hb _ _; exact hb
+  | cons e rest ih =>
+    intro h outer hn hf hb hlt hp
+    obtain ⟨t, a⟩ := e
+    simp only [mergeOuter]
+    split
+    · rename_i d hd
+      obtain ⟨p, q⟩ := mergeDict_ok n keep t d h outer hn hf
+      refine ih _ _ (Nat.le_trans hn p.1) q
+        (mergeDict_built P keep t d h outer hb (fun x hx hk => hp (t, a) d x (by simp) hd hx hk)) (fun e he => hlt e (by simp [he])) ?_
+      intro e d' x he hr hx hk
+      rw [p.2 e.2 (hlt e (by simp [he]))] at hr
+      exact hp e d' x (by simp [he]) hr hx hk
+    · exact ih h outer hn hf hb (fun e he => hlt e (by simp [he])) (fun e d x he => hp e d x (by simp [he]))
 
 end PyGql.Heap.Reg
